@@ -48,7 +48,7 @@ func fsConfigFields(p *load.Program) []cfgField {
 
 func runC07(c *core.Ctx) {
 	runFixtures(c, "valid", "route")
-	c.Explain("Structural clauses of C07 decided from source: (R07.1) every path.Join that combines a Sub root kept in a file-system value (subFS.basePath, os.FS.root) with a name does so where the name is known to satisfy ValidPath — a valid name has no '..' element, so the joined path is lexically inside the root — and every value stored into such a root field is a constant, the old root, or derived from a name known valid at the store; (R07.2) confinement: the wrapped root file system of the generic Sub view is read only by its Mount method and constructor, and every file-system call the view makes uses the (FS, subPath) pair returned by one Mount call; (R07.3) the view translates errors with the (name, subPath) pair of that same call; (R07.4) no function of the module (other than Mount implementations) returns a file system that derives from the file-system half of a Mount(dir) route resolution — the route of dir says nothing about the routes of names below dir, so a view built on it misses mounts below dir; (R07.5 = R06.7) every helper that probes an optional capability also probes MountFS, through which the generic Sub view delegates — without it the operation fails with ErrNotImplemented on the view while it succeeds on the parent. (R07.6) prefix tests against a view's root are on element boundaries; (R07.7) a helper never resolves a route a second time on the file system Mount returned. (R07.8) no method of a view type writes a field of its receiver; (R07.9 = R05.11) namespace typing of the translator. (R07.10) = R06.3 pairing under C07; (R07.11) the generic view delegates to the exported helper of its own name. NOT claimed: equality of effects and results between the view and the parent at dir/name; symbolic links of an OS-backed FS (excluded by the property).")
+	c.Explain("Structural clauses of C07 decided from source: (R07.1) every path.Join that combines a Sub root kept in a file-system value (subFS.basePath, os.FS.root) with a name does so where the name is known to satisfy ValidPath — a valid name has no '..' element, so the joined path is lexically inside the root — and every value stored into such a root field is a constant, the old root, or derived from a name known valid at the store; (R07.2) confinement: the wrapped root file system of the generic Sub view is read only by its Mount method and constructor, and every file-system call the view makes uses the (FS, subPath) pair returned by one Mount call; (R07.3) the view translates errors with the (name, subPath) pair of that same call; (R07.4) no function of the module (other than Mount implementations) returns a file system that derives from the file-system half of a Mount(dir) route resolution — the route of dir says nothing about the routes of names below dir, so a view built on it misses mounts below dir; (R07.5 = R06.7) every helper that probes an optional capability also probes MountFS, through which the generic Sub view delegates — without it the operation fails with ErrNotImplemented on the view while it succeeds on the parent. (R07.6) prefix tests against a view's root are on element boundaries; (R07.7) a helper never resolves a route a second time on the file system Mount returned. (R07.8) no method of a view type writes a field of its receiver; (R07.9 = R05.11) namespace typing of the translator. (R07.10) = R06.3 pairing under C07; (R07.11) the generic view delegates to the exported helper of its own name. (R07.12) = R08.11 under C07; R07.1 also covers views allocated without a root. NOT claimed: equality of effects and results between the view and the parent at dir/name; symbolic links of an OS-backed FS (excluded by the property).")
 	c.Assume("A2: path.Join(valid root, valid name) stays lexically inside root", "A1: the parent file system confines a valid sub-path")
 	c.RuleDoc("R07.1", "join-after-validate for Sub roots; root fields only receive validated values")
 	c.RuleDoc("R07.2", "generic Sub view reaches its parent only through Mount's (FS, subPath) pair")
